@@ -448,3 +448,111 @@ def observe_descr_op(env, doc, op, fin, views, iters):
             raise ValueError(f"bad list op {op!r}")
         return True
     return False
+
+
+# ---------------------------------------------------------------- builder family
+
+class NamedPred:
+    def __init__(self, label):
+        self.label = label
+
+    def __call__(self, m):
+        if self.label == "T":
+            return True
+        if self.label == "F":
+            return False
+        if self.label == "D":
+            return isinstance(m.data, dict)
+        return True
+
+    def __repr__(self):
+        return self.label
+
+    __str__ = __repr__
+
+
+def _key_obj(ks):
+    from treepath import wc as _wc, gwc as _gwc, rec as _rec
+    k = ks[0]
+    if k == "int":
+        return ks[1]
+    if k == "slice":
+        return slice(ks[1], ks[2], ks[3])
+    if k == "wc":
+        return _wc
+    if k == "gwc":
+        return _gwc
+    if k == "str":
+        return ks[1]
+    if k == "tuple":
+        return tuple(1.5 if isinstance(x, dict) else x for x in ks[1])
+    if k == "call":
+        return NamedPred(ks[1])
+    if k == "other":
+        return {"float": 1.5, "none": None, "bytes": b"x", "rec": _rec, "list": [1]}[ks[1]]
+    raise ValueError(ks)
+
+
+def observe_builder(sc):
+    from treepath import path as _path, pathd as _pathd, PathSyntaxError
+    from treepath.path.builder.path_builder import PathBuilder
+    regs = {}
+    out = []
+    for op in sc["ops"]:
+        k = op[0]
+        try:
+            if k == "root":
+                regs[op[1]] = _path if op[2] == "path" else _pathd
+                out.append(["ok"])
+            elif k in ("attr", "item"):
+                src = regs.get(op[2])
+                if src is None:
+                    out.append(["noreg"])
+                    continue
+                v = getattr(src, op[3]) if k == "attr" else src[_key_obj(op[3])]
+                if isinstance(v, PathBuilder):
+                    regs[op[1]] = v
+                    out.append(["ok"])
+                else:
+                    out.append(["notexpr"])
+            elif k == "str":
+                src = regs.get(op[1])
+                if src is None:
+                    out.append(["noreg"])
+                    continue
+                s = str(src)
+                if repr(src) != s:
+                    out.append(["str-repr-differ", s, repr(src)])
+                else:
+                    out.append(["str", s])
+            elif k == "eval":
+                src = regs.get(op[1])
+                if src is None:
+                    out.append(["noreg"])
+                    continue
+                res, exc = [], None
+                try:
+                    for m in itertools.islice(find_matches(src, dec(op[2])), 2000):
+                        res.append([m.path_as_str, m.data_name])
+                except Exception as e:  # noqa
+                    exc = exc_chain(e)
+                out.append(["res", res, exc])
+            elif k in ("setattr", "setitem"):
+                src = regs.get(op[1])
+                if src is None:
+                    out.append(["noreg"])
+                    continue
+                if k == "setattr":
+                    src.foo = 1
+                else:
+                    src["foo"] = 1
+                out.append(["ok"])
+            else:
+                out.append(["badop"])
+        except PathSyntaxError:
+            out.append(["err", "PathSyntaxError"])
+        except AttributeError:
+            out.append(["err", "AttributeError"])
+        except Exception as e:  # noqa
+            out.append(["err", type(e).__name__])
+    return out
